@@ -104,7 +104,7 @@ def config_class(cfg):
 def plan(tier):
     if tier == 'thorough':
         return {'cases': 30000, 'chunk': 8, 'budget_s': 1500, 'case_timeout_s': 240, 'minimise_budget_s': 60}
-    return {'cases': 1100, 'chunk': 4, 'budget_s': 85, 'case_timeout_s': 240, 'minimise_budget_s': 30}
+    return {'cases': 1100, 'chunk': 2, 'budget_s': 70, 'case_timeout_s': 240, 'minimise_budget_s': 30}
 
 
 # ------------------------------------------------------------------------------------------ generation
